@@ -704,9 +704,7 @@ Qed.
 (* coherence of parseFloat and parseFloatPrefix                        *)
 (* ------------------------------------------------------------------ *)
 
-(* what strings.TrimSpace would return if only the six ASCII blanks were blanks *)
-Definition ascii_trim (s : bytes) : bytes :=
-  rev (snd (span ascii_space (rev (snd (span ascii_space s))))).
+(* parseFloat trims with [ascii_trim] (Model/Value.v): the blanks the scanner skips *)
 
 Lemma forallb_rev {A} (p : A -> bool) l : forallb p l = true -> forallb p (rev l) = true.
 Proof.
@@ -756,11 +754,11 @@ Lemma stops_p0 : stops is_hex_digit str_p0 /\ stops (fun c => c =? 46) str_p0.
 Proof. split; reflexivity. Qed.
 
 (* core: [t] is the trimmed text (non-empty), [text] what parseFloat hands to strconv *)
-Lemma coherence_core start t w sg u text x :
+Lemma coherence_core start t w sg u text x rng :
   t <> [] -> opt_sign t = (sg, u) -> blank_led w ->
   (text = t \/
    (text = t ++ str_p0 /\ hex_of u = true /\ contains 112 t = false /\ contains 80 t = false)) ->
-  contains 95 text = false -> go_parse_float text = GVal x false ->
+  contains 95 text = false -> go_parse_float text = GVal x rng ->
   pscan_value (scan_t start (t ++ w)) = Ok x.
 Proof.
   intros Htne Hos Hw Htext H95 Hgo.
@@ -790,7 +788,7 @@ Proof.
       assert (Hpatch : hex_of u && is_nil r3 = false).
       { destruct Hr3 as [[_ H]|[c [es [ed [-> _]]]]]; [rewrite H; reflexivity|apply andb_false_r]. }
       rewrite Hpatch. cbn [pscan_value scan_text]. unfold go_parse_float, go_parse_desc.
-      rewrite Hsp, Hrf. cbn [is_nil]. destruct (desc_value d) as [v r]. injection Hgo as -> ->. reflexivity.
+      rewrite Hsp, Hrf. cbn [is_nil]. destruct (desc_value d) as [v r]. injection Hgo as -> _. reflexivity.
     + (* "p0" was appended: the trimmed string is a hex mantissa without exponent *)
       rewrite (opt_sign_app t str_p0 sg u Htne Hos) in Hos'. injection Hos' as <- <-.
       destruct (hex_of_true_inv u Hh) as [b [c [r [Eu Hb]]]].
@@ -820,11 +818,11 @@ Proof.
       { rewrite Hh, (lex_mant_ext _ _ _ mant_digit_hex). exact Hlt. }
       rewrite (scan_t_full start t w sg u a1 adot a2 [] Hos Hl2 Hnil (or_introl eq_refl) Hw).
       rewrite Hh. cbn [andb is_nil pscan_value scan_text]. unfold go_parse_float, go_parse_desc.
-      rewrite Hsp, Hrf. cbn [is_nil]. destruct (desc_value d) as [v r']. injection Hgo as -> ->. reflexivity.
+      rewrite Hsp, Hrf. cbn [is_nil]. destruct (desc_value d) as [v r']. injection Hgo as -> _. reflexivity.
 Qed.
 
 Lemma parse_float_text_cases s :
-  let t := trim_space s in
+  let t := ascii_trim s in
   match parse_float_text s with
   | None => exists c a b e, t = [c; a; b; e] /\ is_sign c = true /\ has_nan_prefix [a; b; e] = true
   | Some text =>
@@ -833,7 +831,7 @@ Lemma parse_float_text_cases s :
          text = t \/ (text = t ++ str_p0 /\ hex_of u = true /\ contains 112 t = false /\ contains 80 t = false))
   end.
 Proof.
-  unfold parse_float_text. set (t := trim_space s). cbv zeta.
+  unfold parse_float_text. set (t := ascii_trim s). cbv zeta.
   destruct t as [|c t'] eqn:Et; [left; split; reflexivity|].
   destruct ((1 <? zlen (c :: t')) && is_sign c) eqn:Hsigned.
   - apply andb_true_iff in Hsigned as [_ Hsc].
@@ -864,20 +862,21 @@ Proof.
     + right. split; [discriminate|]. intros sg u _. left. reflexivity.
 Qed.
 
-Theorem coherence_partial s x :
-  trim_space s = ascii_trim s -> parse_float s = PFOk x -> parse_float_prefix s = Ok x.
+(* the agreement of the two routines: all strings *)
+Theorem coherence s x :
+  parse_float s = PFOk x -> parse_float_prefix s = Ok x.
 Proof.
-  intros Htrim Hpf.
+  intros Hpf.
   destruct (ascii_trim_decomp s) as [ws2 [Hspan Hw]].
   rewrite parse_float_prefix_eq, scan_prefix_eq. rewrite Hspan. cbn [fst snd].
-  pose proof (parse_float_text_cases s) as Hc. cbv zeta in Hc. rewrite Htrim in Hc.
+  pose proof (parse_float_text_cases s) as Hc. cbv zeta in Hc.
   unfold parse_float in Hpf.
   destruct (parse_float_text s) as [text|].
-  - destruct (go_parse_float text) as [|v r] eqn:Hgo; [discriminate|]. destruct r; [discriminate|].
+  - destruct (go_parse_float text) as [|v r] eqn:Hgo; [discriminate|].
     destruct (contains 95 text) eqn:H95; [discriminate|]. injection Hpf as ->.
     destruct Hc as [[_ ->] | [Htne Hc]]; [discriminate|].
     destruct (opt_sign (ascii_trim s)) as [sg u] eqn:Hos.
-    exact (coherence_core _ (ascii_trim s) ws2 sg u text x Htne Hos Hw (Hc sg u eq_refl) H95 Hgo).
+    exact (coherence_core _ (ascii_trim s) ws2 sg u text x r Htne Hos Hw (Hc sg u eq_refl) H95 Hgo).
   - injection Hpf as <-. destruct Hc as [c [a [b [e [Et [Hsc Hn]]]]]].
     rewrite Et. unfold scan_t. cbn [app opt_sign]. rewrite Hsc, zlen_ge3'.
     replace (has_nan_prefix (a :: b :: e :: ws2)) with true by (symmetry; exact Hn). reflexivity.
